@@ -366,17 +366,23 @@ fn parse_token(text: &str) -> IResult<&str, Token> {
     }
 }
 
-fn parse_token_not_semicolon(text: &str) -> IResult<&str, Token> {
-    let (rest, token) = parse_token(text)?;
-    if token == Token::Semicolon {
-        fail(text)
-    } else {
-        Ok((rest, token))
-    }
-}
-
 fn parse_value(text: &str) -> IResult<&str, RawValue> {
-    let (rest, mut tokens) = many0(parse_token_not_semicolon)(text)?;
+    // A value runs up to the next semicolon, or up to the closing brace of
+    // the enclosing block (the final semicolon of a block is optional).
+    let mut rest = text;
+    let mut tokens = Vec::new();
+    let mut brace_depth = 0usize;
+    while let Ok((remain, token)) = parse_token(rest) {
+        match token {
+            Token::Semicolon => break,
+            Token::OpenBrace => brace_depth += 1,
+            Token::CloseBrace if brace_depth == 0 => break,
+            Token::CloseBrace => brace_depth -= 1,
+            _ => (),
+        }
+        tokens.push(token);
+        rest = remain;
+    }
     let mut important = false;
     if let [.., Token::Delim('!'), Token::Ident(x)] = &tokens[..] {
         if x == "important" {
@@ -787,12 +793,22 @@ fn parse_content(value: &RawValue) -> Result<String, nom::Err<nom::error::Error<
     Ok(result)
 }
 
-pub(crate) fn parse_rules(text: &str) -> IResult<&str, Vec<Declaration>> {
-    separated_list0(
-        tuple((tag(";"), skip_optional_whitespace)),
-        parse_declaration,
+// One or more semicolons, with optional whitespace and comments around them.
+fn parse_semicolons(text: &str) -> IResult<&str, ()> {
+    map(
+        many1(tuple((
+            skip_optional_whitespace,
+            tag(";"),
+            skip_optional_whitespace,
+        ))),
+        |_| (),
     )(text)
-    .map(|(rest, v)| (rest, v.into_iter().flatten().collect()))
+}
+
+pub(crate) fn parse_rules(text: &str) -> IResult<&str, Vec<Declaration>> {
+    let (rest, _) = opt(parse_semicolons)(text)?;
+    separated_list0(parse_semicolons, parse_declaration)(rest)
+        .map(|(rest, v)| (rest, v.into_iter().flatten().collect()))
 }
 
 fn parse_class(text: &str) -> IResult<&str, SelectorComponent> {
@@ -967,13 +983,12 @@ fn parse_ruleset(text: &str) -> IResult<&str, RuleSet> {
     let (rest, _) = skip_optional_whitespace(text)?;
     let (rest, selectors) =
         separated_list0(tuple((tag(","), skip_optional_whitespace)), parse_selector)(rest)?;
-    let (rest, (_ws1, _bra, _ws2, declarations, _ws3, _optsemi, _ws4, _ket, _ws5)) = tuple((
+    let (rest, (_ws1, _bra, _ws2, declarations, _optsemi, _ws4, _ket, _ws5)) = tuple((
         skip_optional_whitespace,
         tag("{"),
         skip_optional_whitespace,
         parse_rules,
-        skip_optional_whitespace,
-        opt(tag(";")),
+        opt(parse_semicolons),
         skip_optional_whitespace,
         tag("}"),
         skip_optional_whitespace,
